@@ -317,6 +317,7 @@ func (f *fsm) sendOpenAndSetHoldTimer() fsmState {
 		return idleState
 	}
 	f.holdTimer = time.NewTimer(longHoldTime)
+	verifEvent("t.hold", f.peer, f, int64(longHoldTime))
 	f.startReading()
 	return openSentState
 }
@@ -553,6 +554,7 @@ func (f *fsm) drainAndResetHoldTimer() {
 		<-f.holdTimer.C
 	}
 	f.holdTimer.Reset(f.holdTime)
+	verifEvent("t.hold", f.peer, f, int64(f.holdTime))
 }
 
 // handleNotificationInErr checks if the error unwraps to a notificationError.
@@ -667,6 +669,7 @@ func (f *fsm) openSent() (fsmState, error) {
 					// third of the Hold Time interval.
 					f.keepAliveInterval = f.holdTime / 3
 					f.keepAliveTimer = time.NewTimer(f.keepAliveInterval)
+					verifEvent("t.ka", f.peer, f, int64(f.keepAliveInterval))
 					f.drainAndResetHoldTimer()
 				} else {
 					// https://tools.ietf.org/html/rfc4271#section-4.2
@@ -677,6 +680,7 @@ func (f *fsm) openSent() (fsmState, error) {
 					f.keepAliveTimer = time.NewTimer(longHoldTime)
 					f.keepAliveTimer.Stop()
 					f.holdTimer.Stop()
+					verifEvent("t.hold", f.peer, f, int64(-1))
 				}
 
 				return openConfirmState, nil
@@ -717,6 +721,7 @@ func (f *fsm) openSent() (fsmState, error) {
 	if to != openConfirmState {
 		f.cleanupConnAndReader()
 		f.holdTimer.Stop()
+		verifEvent("t.hold", f.peer, f, int64(-1))
 	}
 	return to, err
 }
@@ -740,6 +745,7 @@ func (f *fsm) openConfirm() (fsmState, error) {
 					return idleState, fmt.Errorf("error sending keepAlive: %w", err)
 				}
 				f.keepAliveTimer.Reset(f.keepAliveInterval)
+				verifEvent("t.ka", f.peer, f, int64(f.keepAliveInterval))
 				continue
 			case err := <-f.readerErrCh:
 				// In OpenConfirm handling of a TCP connection fails event or
@@ -802,6 +808,8 @@ func (f *fsm) openConfirm() (fsmState, error) {
 		f.cleanupConnAndReader()
 		f.holdTimer.Stop()
 		f.keepAliveTimer.Stop()
+		verifEvent("t.hold", f.peer, f, int64(-1))
+		verifEvent("t.ka", f.peer, f, int64(-1))
 	}
 	return to, err
 }
@@ -854,6 +862,7 @@ func (f *fsm) established() (fsmState, error) {
 			case <-resetKATimerCh:
 				if f.holdTime != 0 {
 					f.keepAliveTimer.Reset(f.keepAliveInterval)
+					verifEvent("t.ka", f.peer, f, int64(f.keepAliveInterval))
 				}
 			}
 		}
@@ -984,6 +993,8 @@ func (f *fsm) established() (fsmState, error) {
 	f.cleanupConnAndReader()
 	f.holdTimer.Stop()
 	f.keepAliveTimer.Stop()
+	verifEvent("t.hold", f.peer, f, int64(-1))
+	verifEvent("t.ka", f.peer, f, int64(-1))
 	f.peer.plugin.OnClose(f.peer.config)
 	return to, err
 }
